@@ -357,7 +357,8 @@ class _Gen(object):
         if odeproblems.dim(name) == 3:
             # one huge component (k * 2^60) next to two of size 1
             y0 = {'t': 'list', 'v': [_dy(r.randint(1, 24), -60), _dy(r.randint(1, 24), 3), _dy(r.randint(-16, 16), 3)]}
-            span = min(span, 2.0)
+            span = min(span, 1.5)
+            P0 = min(P0, 90)          # (a fast oscillator at high precision means hundreds of high-degree segments)
         elif odeproblems.dim(name) == 2:
             y0 = {'t': 'list', 'v': [_dy(r.randint(1, 24), 3), _dy(r.randint(-16, 16), 3)]}
         else:
